@@ -122,6 +122,37 @@ func lock9NotStronger(v ssa.Value, param *ssa.Parameter, seen map[ssa.Value]bool
 
 // lock9IsForUpdateCalls: the IsForUpdate calls v is computed from; only = v is nothing
 // but such a call (or the constant false).
+// lock9OwnOrText: v is a φ each of whose edges is no stronger than the function's own flag, or the
+// constant true arriving over an edge that is taken only under the true branch of IsForUpdate asked of
+// a pristine query value (`if query.IsForUpdate() { forUpdate = true }`).
+func lock9OwnOrText(p *core.Prog, v ssa.Value, param *ssa.Parameter) bool {
+	phi, ok := v.(*ssa.Phi)
+	if !ok {
+		return false
+	}
+	text := false
+	for i, e := range phi.Edges {
+		if lock9NotStronger(e, param, map[ssa.Value]bool{}) {
+			continue
+		}
+		if b, isConst := core.ConstBool(e); !isConst || !b {
+			return false
+		}
+		asked := false
+		for _, f := range core.EdgeFacts(phi.Block().Preds[i], phi.Block()) {
+			call, isCall := f.Cond.(*ssa.Call)
+			if isCall && !f.Neg && p.CalleeName(call) == "lib/parser.(SelectQuery).IsForUpdate" && len(call.Call.Args) > 0 && lock9Pristine(call.Call.Args[0]) {
+				asked = true
+			}
+		}
+		if !asked {
+			return false
+		}
+		text = true
+	}
+	return text
+}
+
 func lock9IsForUpdateCalls(p *core.Prog, v ssa.Value) (out []*ssa.Call, only bool) {
 	only = true
 	for _, o := range core.Origins(v, false) {
@@ -297,6 +328,19 @@ func ruleLock9(c *Ctx) {
 	}
 	var origins []origin
 	nChain := 0
+	seenText := map[string]bool{}
+	// textBody: fn is a listed statement-text origin or the function such an origin hands all its work to
+	textBody := func(fn *ssa.Function) string {
+		if _, ok := lock9TextOrigins[p.Name(fn)]; ok {
+			return p.Name(fn)
+		}
+		for _, n := range sortedKeys(lock9TextOrigins) {
+			if lf := p.Func(n); lf != nil && thinDelegate(lf) == fn {
+				return n
+			}
+		}
+		return ""
+	}
 	for _, fn := range fns {
 		own := lock8OwnParam(fn)
 		ord := map[string]int{}
@@ -325,6 +369,9 @@ func ruleLock9(c *Ctx) {
 			key := txnOrd(ord, c.KeyAt(fn, "forUpdate handed to "+p.FnRef(k)+" is not invented"))
 			if lock9NotStronger(arg, own, map[ssa.Value]bool{}) {
 				c.Ok(key, c.Pos(cc), "passes its own forUpdate, the constant false, or a value that is false whenever its own forUpdate is false")
+			} else if n := textBody(fn); n != "" && lock9OwnOrText(p, arg, own) {
+				seenText[n] = true
+				c.Ok(key, c.Pos(cc), "statement-text origin with a flag of its own ("+lock9TextOrigins[n]+"): the value is the function's own forUpdate, made true only under the true branch of IsForUpdate of a query value this function does not write to")
 			} else {
 				c.Bad(key, c.Pos(cc), fmt.Sprintf("the function is called with forUpdate but hands %s to %s: this value can be true when the caller asked for a plain read, so a table that the transaction only reads is opened for update — a copy cached by an earlier SELECT is disposed and re-read from disk (the transaction sees what another process committed in between) and the file stays exclusively locked until COMMIT / ROLLBACK", lock8ValueLabel(arg), p.FnRef(k)))
 			}
@@ -382,7 +429,7 @@ func ruleLock9(c *Ctx) {
 	// (2) origins
 	sort.SliceStable(origins, func(i, j int) bool { return p.Name(origins[i].fn) < p.Name(origins[j].fn) })
 	ord := map[string]int{}
-	seenTrue, seenText := map[string]bool{}, map[string]bool{}
+	seenTrue := map[string]bool{}
 	for _, o := range origins {
 		c.Sites++
 		c.Touch(o.fn)
